@@ -614,6 +614,12 @@ def _fetch_and_resolve(
 
     reader = ValidatedReader(ipc.open_stream(BytesIO(data)), ipc_validation)
     data_batches: list[tuple[pa.RecordBatch, pa.KeyValueMetadata | None]] = []
+    # Nothing read from the fetched object reaches application code (``on_log``,
+    # the caller) before the whole object has been read and validated.  A rejected
+    # object must not already have delivered its log batches, and an attempt that
+    # fails half-way (truncated stream -> ``ArrowInvalid`` -> retry) must not
+    # deliver them once per attempt.
+    log_batches: list[tuple[pa.RecordBatch, pa.KeyValueMetadata | None]] = []
 
     while True:
         try:
@@ -627,8 +633,10 @@ def _fetch_and_resolve(
                 f"Redirect loop detected: fetched batch from {redact_url(url)} contains vgi_rpc.location"
             )
 
-        # Dispatch log batches
-        if _dispatch_log_or_error(fetched_batch, fetched_cm, on_log):
+        # Classify only (no callback): log batches are held back until the object
+        # is known to be well-formed; an EXCEPTION batch still raises RpcError here.
+        if _dispatch_log_or_error(fetched_batch, fetched_cm, None):
+            log_batches.append((fetched_batch, fetched_cm))
             continue
 
         data_batches.append((fetched_batch, fetched_cm))
@@ -647,6 +655,11 @@ def _fetch_and_resolve(
         raise ValueError(
             f"Schema mismatch in ExternalLocation: expected {expected_schema}, got {resolved_batch.schema}"
         )
+
+    # The object is accepted: deliver its log batches, in stream order.
+    if on_log is not None:
+        for log_batch, log_cm in log_batches:
+            _dispatch_log_or_error(log_batch, log_cm, on_log)
 
     # Attach fetch metadata
     fetch_metadata = pa.KeyValueMetadata(
